@@ -234,6 +234,6 @@ def strat_history(draw, tier):
 
 
 PARTS = [
-    Part("conditional", check_conditional, strat_case, quick=6000, thorough=200000, min_nontrivial_frac=0.4),
-    Part("history", check_history, lambda tier: strat_history(tier), quick=1500, thorough=30000, min_nontrivial_frac=0.4),
+    Part("conditional", check_conditional, strat_case, quick=6000, thorough=200000, min_nontrivial_frac=0.3),
+    Part("history", check_history, lambda tier: strat_history(tier), quick=1500, thorough=30000, min_nontrivial_frac=0.25),
 ]
